@@ -719,7 +719,7 @@ def c04(a):
     tag = "C04/mcvars"
     cfg = work(tag + ".cfg")
     write_cfg(cfg, {"MaxNames": 3 if q else 4, "Emit": True}, invariants=["SpecOk", "EmitCases"])
-    res, summ, obsp = pipeline.gen_replay_shard("MC_Vars", cfg, tag, ["vars", "--extra", "2"], workers=16)
+    res, summ, obsp = pipeline.gen_replay_shard("MC_Vars", cfg, tag, ["vars", "--extra", "2", "--ghost-every", "1" if a.tier == "quick" else "12"], workers=16)
     if res.violated or res.error:
         print(res.out[-3000:])
         raise vlib.ToolError(f"MC_Vars: {res.violated or res.error} - spec bug")
